@@ -144,3 +144,50 @@ Proof.
     replace (S (n - S (S i))) with (n - S i)%nat in G2 by lia.
     generalize dependent (nth (n - S (S i)) s 0). generalize (nth (n - S i) s 0). intros. qmlra.
 Qed.
+
+(* ====================== 3. a rectangle outline ====================== *)
+Lemma vertical_cross px py x ya yb :
+  crosses (px, py) (x, ya) (x, yb) =
+  ((Qcleb ya py && Qcltb py yb) || (Qcleb yb py && Qcltb py ya)) && Qcltb px x.
+Proof.
+  unfold crosses.
+  replace (x + (py - ya) * (x - x) / (yb - ya)) with x by (unfold Qcdiv; ring).
+  destruct ((Qcleb ya py && Qcltb py yb) || (Qcleb yb py && Qcltb py ya)); reflexivity.
+Qed.
+Lemma horizontal_cross px py xa xb y : crosses (px, py) (xa, y) (xb, y) = false.
+Proof.
+  unfold crosses. destruct (Qcleb y py) eqn:A, (Qcltb py y) eqn:B; cbn; try reflexivity.
+  exfalso. qb2p. qlra.
+Qed.
+
+Definition in_box (x0 x1 y0 y1 px py : Qc) : bool :=
+  Qcleb x0 px && Qcltb px x1 && Qcleb y0 py && Qcltb py y1.
+
+Theorem inside_rectangle x0 x1 y0 y1 px py : x0 < x1 -> y0 < y1 ->
+  point_inside (px, py) [(x0, y0); (x1, y0); (x1, y1); (x0, y1)] = in_box x0 x1 y0 y1 px py /\
+  point_inside (px, py) [(x0, y1); (x1, y1); (x1, y0); (x0, y0)] = in_box x0 x1 y0 y1 px py.
+Proof.
+  intros Hx Hy. unfold point_inside, edges, in_box. cbn [app combine fold_left fst snd].
+  rewrite !vertical_cross, !horizontal_cross.
+  destruct (Qcleb y0 py) eqn:A, (Qcltb py y1) eqn:B, (Qcleb y1 py) eqn:C, (Qcltb py y0) eqn:D,
+           (Qcltb px x1) eqn:E, (Qcltb px x0) eqn:F, (Qcleb x0 px) eqn:G; cbn;
+    try (split; reflexivity); exfalso; qb2p; qlra.
+Qed.
+
+(* consequence for the grid step: for a grid refining the rectangle (cell boundaries a < b
+   within [x0, x1], c < e within [y0, y1]) the centre of a cell is inside the outline, and the
+   centre of a cell beside it (completely to the left, right, below or above) is not *)
+Theorem rectangle_cell_centre x0 x1 y0 y1 a b c e : x0 < x1 -> y0 < y1 -> a < b -> c < e ->
+  (x0 <= a -> b <= x1 -> y0 <= c -> e <= y1 ->
+     point_inside (mid a b, mid c e) [(x0, y0); (x1, y0); (x1, y1); (x0, y1)] = true) /\
+  (b <= x0 \/ x1 <= a \/ e <= y0 \/ y1 <= c ->
+     point_inside (mid a b, mid c e) [(x0, y0); (x1, y0); (x1, y1); (x0, y1)] = false).
+Proof.
+  intros Hx Hy Hab Hce. destruct (inside_rectangle x0 x1 y0 y1 (mid a b) (mid c e) Hx Hy) as [E _].
+  rewrite E. unfold in_box, mid. split.
+  - intros. rewrite !andb_true_iff. repeat split; qb2p; qlra.
+  - intros H.
+    destruct (Qcleb x0 ((a + b) * half)) eqn:A, (Qcltb ((a + b) * half) x1) eqn:B,
+             (Qcleb y0 ((c + e) * half)) eqn:C, (Qcltb ((c + e) * half) y1) eqn:D; cbn; try reflexivity.
+    exfalso. qb2p. destruct H as [H|[H|[H|H]]]; qlra.
+Qed.
